@@ -38,24 +38,24 @@ L = {
  'C09': ('Theorems: one-transition lemmas plus big-step theorems over sub-evaluations of any length (strict_bin_big_step, and/or/if-else laziness, '
          'args_big_step, dict_big_step, slice_big_step, hof_big_step for the callbacks of map / filter / reduce / sorted, operand_then_frame) via the frame lemma. '
          'Correspondence: probe-log slice; monitors: probe order / count, value of and/or chains.',
-         'raising callbacks inside a higher-order call: one-transition lemmas only.'),
+         'the order statements are also read off the compositional semantics (C09Den), which the machine implements exactly.'),
  'C10': ('Theorems: lookup order, writes go to the top scope, scope_balanced / scopes_restored / host_scope_beneath over all runs, eval_ends_with_host_scope_only. '
          'Correspondence: scope and session-scope slices; monitors: scope leaks, zero-argument ast lambdas, re-entrant eval, mappings with __missing__.',
          'covered_scopes_survive_any_program (InvSep: with mutators and compound assignments, an object no value mentions changes only while it is a top scope) is relative to a host world in which no value refers to scope dictionaries.'),
  'C11': ('Theorems: history_indep_* for parse / list_names histories of any outcome, history_indep_eval, cache_transparent (C17) for cached parsers; D9 theorem. '
          'Correspondence: histories on one SqParser; monitors: fresh-parser repeat and pristine-interpreter (forked zygote) reference.', 'finding D9.'),
  'C12': ('Theorems: deepcopy_frame, copy_reaches_only_new_objects, stored_copy_is_independent, stored_copy_has_same_content (deepcopy_iso: copy and original '
-         'unfold to the same tree at every depth; memo-walk invariant copy_spec), all assignment forms store the copy. Correspondence: alias slice with '
-         'shared host objects; monitor: reachability disjointness.', 'aliasing structure of the copy not a theorem of its own.'),
+         'unfold to the same tree at every depth; memo-walk invariant copy_spec), stored_copy_keeps_sharing (one injective address map), assign_binds_same_content, all assignment forms store the copy. Correspondence: alias slice with '
+         'shared host objects; monitor: reachability disjointness.', 'Closed / KeysPlain are hypotheses on the heap.'),
  'C13': ('Theorems: every one of the 35 non-mutating builtins preserves all existing objects; quiet_program_changes_no_host_object (over whole runs a program '
          'without mutators / compound assignments changes no pre-existing object other than scope dictionaries). Correspondence: builtin x argument matrix; snapshot monitor.',
          'programs with mutators: a step changes only top scopes and objects some value mentions (InvSep.step_sep; per entry mod_push ... mod_setitem_with_op).'),
  'C14': ('Theorems: ops_refine_dict and ops_refine_list (every operation sequence refines the mathematical dict / Python list spec, other objects untouched), one key '
          'cast everywhere, failing reads are ParserErrors. Correspondence: op sequences exhaustive to depth 2/3 + random.', 'slices of lists pending.'),
  'C15': ('Theorems: token-level insignificance (closer_irrelevant, blank statements, trailing separators / commas) through parse_iff; character level: '
-         'extra_blank_between_tokens_same_program (a blank at any point between two lexer steps changes neither tokens nor tree), parser_reads_kind_and_value. Critical ties: '
+         'extra_blank_between_tokens / comment_at_line_end / line_break_in_brackets _same_program (whole texts: an insertion at any point between two lexer steps changes neither tokens nor tree), parser_reads_kind_and_value. Critical ties: '
          'lexer rules, grammar. Correspondence + metamorphic monitor: plain vs decorated renderings incl. bare number / prefix-operator receivers.',
-         'comments / CRLF / bracket line breaks at the character level pending.'),
+         'trailing commas / redundant parentheses at the character level: token-level theorems only.'),
  'C16': ('Theorems: each listed failure is a ParserError at every position; parse outcomes are a tree or one of three ParserError kinds. Correspondence: malformed slice; '
          'fuzz monitor for never-a-non-Exception / never-a-crash (watched worker pool).', 'the no-crash half is measured; finding D17.'),
  'C17': ('Theorems: cache_transparent (simulation over every sequence of parse / list_names / eval, every forgetting / reordering policy, every genuine pre-warmed cache). '
